@@ -186,6 +186,15 @@ func (f *frame) callFunction(fn *ssa.Function, args []Val, bindings []Val, pos t
 	v := f.v
 	key := v.eng.funcKey(fn)
 	sig := fn.Signature
+	// math.Max / math.Ceil over the reals are built in (structured terms, see intForm)
+	switch key {
+	case "math.Max":
+		v.trusted["built-in real model: math.Max"] = true
+		return minmax(true, asTerm(args[0]), asTerm(args[1]))
+	case "math.Ceil":
+		v.trusted["built-in real model: math.Ceil"] = true
+		return v.ceilOf(asTerm(args[0]))
+	}
 	// sort.Sort(data): the assumed contract is per concrete slice type
 	if key == "sort.Sort" && f.sortArg != nil {
 		mi := f.sortArg
